@@ -288,7 +288,8 @@ def plan(tier, seed):
         # depth <= 2 over the full alphabet, depth 3 over a reduced one (every kind of collision still present)
         hist = list(dict.fromkeys(_histories(2) + _histories(3, call_alpha=[0, 1, 3, 5, 6, 10, 11, 23, 24, 2, 31], open_alpha=[0, 3, 9, 10])))
     else:
-        hist = _histories(depth)
+        # depth <= 3 over the full alphabet, depth 4 over a reduced one (the full depth-4 product is > 2 million histories)
+        hist = list(dict.fromkeys(_histories(3) + _histories(4, call_alpha=[0, 1, 3, 5, 6, 10, 11, 23, 24, 2, 31, 33, 35, 37, 39], open_alpha=[0, 3, 9, 10, 38])))
     lens = [len(g) if isinstance(g, list) and (not g or g[0] != "exc") else 0 for g in REF["gen"]]
     # three-party histories: a stream is opened and stepped, one call completes (or fails), ANOTHER call completes, then the stream is drained
     # (state handed from the first call to the second while the stream still uses it); depth 5+ in operations, enumerated as a directed family
